@@ -13,7 +13,20 @@ separate enqueues) and the table refresh:
  4. the schedule of that counterexample is forced on the real code: the backend writer is parked between ASKING and the
     command while other sessions send commands for keys of the migrating slot to the same node - none may run in between;
  5. failover: a master is replaced by its replica (old master dies or is demoted); TLC: ConvergesAfterDialError (the pinned
-    variant without refresh-on-dial-error must fail); code: reads heal within a few requests, writes reach the new master.
+    variant without refresh-on-dial-error must fail); code: reads heal within a few requests, writes reach the new master;
+ 6. order of redirected requests: backend connections are made on first use (LazyConnect); the reader of the connection that
+    got MOVED / ASK resends the request itself (it dials the target if need be), so two commands on one key that take the
+    same way are executed in the order issued (RedirectKeepsOrder). The broken variant AsyncRedirectDial (a redirection to a
+    node without a connection is resent by a goroutine of its own) must violate it (anti-vacuity, window W_RedirectToFreshNode).
+    Code: (a) behaviours of ONE pipelining client from ClusterGen (Pipelined, LazyConnect: the proxy starts with one seed)
+    are replayed with every burst written in one piece, the refresher held back; (b) cluster-redirorder sets the window up
+    every run - slot migrating / moved to a node that never carried traffic, replica promoted that was never contacted -
+    and several connections write order-revealing pipelines; replies and final data must be those of a single server;
+ 7. demotion (WithDemotion): the replaced master stays alive as a replica. The code sends READONLY on every backend connection
+    (ReadonlyEverywhere), so the demoted node serves reads itself: TLC finds a read overtaking the redirected write issued
+    before it (6 states); cluster-redirorder's stratum demoted-read shows it on the code (pipeline SET k v; GET k -> old value).
+
+Modules owned (with C03): see checks/c03.py.
 """
 import os
 
@@ -36,14 +49,32 @@ def run(ctx):
     ctx.mc("redis", "MC_Cluster", "MC_Cluster_migration_emptytable_atomic.cfg" if ctx.thorough else "MC_Cluster_migration_emptytable_atomic_quick.cfg",
            workers=8, timeout=1500)
     # the pinned design (two separate sends) must still yield its counterexample with an empty table (anti-vacuity)
-    ctx.mc("redis", "MC_Cluster", "MC_Cluster_migration_emptytable.cfg", workers=8, timeout=900,
+    ctx.mc("redis", "MC_Cluster", "MC_Cluster_migration_emptytable.cfg" if ctx.thorough else "MC_Cluster_migration_emptytable_small.cfg", workers=8, timeout=900,
            expect_violated=["SingleCopy", "CopyIsReference", "EqualsReference"], count=False)
     # failover: a master is replaced by a standby node and dies; a request that fails against the dead master must make
     # the table converge (repaired code: a dial error triggers a refresh); the pinned variant must fail
     ctx.mc("redis", "MC_Cluster", "MC_Cluster_failover_fixed.cfg", workers=8, timeout=900)
     ctx.mc("redis", "MC_Cluster", "MC_Cluster_failover_pinned.cfg", workers=4, timeout=600,
            expect_violated=["TEMPORAL", "ConvergesAfterDialError"], count=False)
+    # order of redirected requests towards a node the proxy is not connected to yet: clean as the code does it (the source's
+    # reader resends), counterexample when the resend is left to a goroutine of its own
+    ctx.mc("redis", "MC_Cluster", "MC_Cluster_freshtarget_thorough.cfg" if ctx.thorough else "MC_Cluster_freshtarget.cfg", workers=8, timeout=900)
+    ctx.mc("redis", "MC_Cluster", "MC_Cluster_freshtarget_async.cfg", workers=4, timeout=600,
+           expect_violated=["RedirectKeepsOrder"], count=False)
+    # a master that stays alive as a replica of its successor: with READONLY on every backend connection (the code) the demoted
+    # node answers reads itself and a read overtakes the redirected write issued before it (finding
+    # stale-read/pipelined-read-served-by-demoted-master: the counterexample must stay reachable); READONLY only on connections
+    # meant for replica reads is clean (proposed repair, out/proposed/C04-readonly-on-master-connections.diff)
+    ctx.mc("redis", "MC_Cluster", "MC_Cluster_demotion_readonly.cfg", workers=4, timeout=600,
+           expect_violated=["RedirectKeepsOrder"], count=False)
+    if ctx.thorough:
+        ctx.mc("redis", "MC_Cluster", "MC_Cluster_demotion_fixed.cfg", workers=4, timeout=600)
+    if ctx.thorough:   # the window in the design as built: MOVED / ASK naming an unconnected node, a second command for the key queued behind
+        ctx.mc("redis", "MC_Cluster", "MC_Cluster_freshtarget_window.cfg", workers=4, timeout=600,
+               expect_violated=["NoRedirectToFreshNode"], count=False)
     clusterlib.gen_and_replay(ctx, "Gen_Cluster_migration.cfg", 250 if ctx.thorough else 30, False, "migration")
+    clusterlib.gen_and_replay(ctx, "Gen_Cluster_pipeline.cfg", 200 if ctx.thorough else 30, False, "pipeline", extra=["-pipeline"])
+    clusterlib.redirect_order(ctx)
     ffile = os.path.join(ctx.work, "failover.ndjson")
     ctx.harness(["cluster-failover", "-out", ffile, "-runs", "24" if ctx.thorough else "4"], timeout=900, name="cluster")
     for r in kit.read_ndjson(ffile):
@@ -89,5 +120,6 @@ def run(ctx):
             ctx.violation("split-key/asking-flag-stolen-empty-table",
                           "with an empty routing table a command sent to a random node ran on the importing node with another request's "
                           "ASKING flag: key has %d copies %s" % (r["copiesA1"], r["values"]), r)
-    ctx.cov["rule"] = ("histories = TLC simulation of ClusterGen (one migration), distinct by event sequence, non-trivial = contains a migration step; "
-                       "plus the forced ASKING-interleaving schedule")
+    ctx.cov["rule"] = ("histories = TLC simulation of ClusterGen (one migration; sequential client, and one pipelining client with lazily made "
+                       "backend connections), distinct by event sequence, non-trivial = contains a migration step; "
+                       "plus the forced ASKING-interleaving schedule and the redirect-to-fresh-node strata (ask, moved, failover-moved, demoted-read)")
